@@ -57,8 +57,7 @@ theorem simple_decodes_equal (flags : Nat) (gmap : Nat → Option Nat) (d out pa
       v'.endPts = v.endPts ∧
       v'.instructions = (if hasFlag flags F_NO_HINTING then [] else v.instructions) ∧
       v'.points = v.points ∧
-      ((∀ fl xl yl, Glyf.resolveCoordsLen v.glyphData 0 v.numPoints 0 0 = some (fl, xl, yl) → fl ≤ v.numPoints) →
-        v'.readPointsFast = v.readPointsFast) ∧
+      v'.readPointsFast = v.readPointsFast ∧
       (∀ j, j < 10 → out.getD j 0 = d.getD j 0) := by
   unfold subsetGlyphBytes at h
   split at h
@@ -155,18 +154,10 @@ theorem simple_decodes_equal (flags : Nat) (gmap : Nat → Option Nat) (d out pa
           (by rw [ovlRuns_counts]; exact hcnt') (ovlRuns_256 flags R h256)
           (by rw [ovlRuns_xTot, ovlRuns_yTot]; exact hCl)
     rw [e1, e2, ptsOfRuns_ovl]
-  · intro hfl
-    have hnp : (viewOf hdr instr gd nc).numPoints = u16At d (10 + 2 * (nc - 1)) + 1 := by
-      unfold Glyf.SimpleView.numPoints; rw [hlast]
-    have hres := resolve_runs R M 0 0 0 hok
-    rw [hM, hcnt'] at hres
-    have hfl' := hfl _ _ _ (by rw [hnp]; exact hres)
-    rw [hnp] at hfl'
-    simp only [Nat.zero_add] at hfl'
-    have e1 := fast_of_runs _ _ R _ _ (hlast instr gd) hgd2 hok hcnt' hCl hfl'
+  · have e1 := fast_of_runs _ _ R _ _ (hlast instr gd) hgd2 hok hcnt' hCl
     have e2 := fast_of_runs _ _ (ovlRuns flags R) _ _ (hlast instr' (ovl flags (gd.take k) ++ pad)) hgd' (ovlRuns_ok flags R hok)
           (by rw [ovlRuns_counts]; exact hcnt')
-          (by rw [ovlRuns_xTot, ovlRuns_yTot]; exact hCl) (by rw [ovlRuns_encLen]; exact hfl')
+          (by rw [ovlRuns_xTot, ovlRuns_yTot]; exact hCl)
     rw [e1, e2, fastOfRuns_ovl]
 
 end FontVerif.SubsetOutline
